@@ -706,10 +706,11 @@ fn expr_p13<'t>(
         input: &'t [LexToken],
         st: &mut SymbolTable,
     ) -> ParseResult<'t, (Located<Expression>, Located<Expression>)> {
+        // Both arms may be assignment expressions without parenthesis - as in HLSL / C++
         let (input, _) = parse_token(Token::QuestionMark)(input)?;
-        let (input, left) = expr_p13(input, st)?;
+        let (input, left) = expr_p14(input, st)?;
         let (input, _) = parse_token(Token::Colon)(input)?;
-        let (input, right) = expr_p13(input, st)?;
+        let (input, right) = expr_p14(input, st)?;
         Ok((input, (left, right)))
     }
 
